@@ -9,7 +9,7 @@ from . import inst_common as ic
 
 GEN_SECTIONS = ["Regexes", "Tables", "Unicode"]
 # arithmetic leaf functions whose ASTs are dumped from /repo and proved equal to the hand model (lean/Chartparse/Tie/<X>.lean)
-LEAVES = {'Secs': 'secs', 'LoopSustain': [], 'LoopGlue': []}
+LEAVES = {'Secs': 'secs', 'LoopSustain': [], 'LoopGlue': [], 'LoopLastEnd': []}
 IMP = ['longestSustain', 'refinedSustainTuple', 'complexSustain', 'lastNoteEndTimestamp']  # functions dumped as terms of the imperative embedding, run against CPython on every run
 TRUSTED = [
     "leaf ties: Py.evalBody (embedded Python subset, validated against CPython on random expressions and against the real leaf functions every run) + the AST dump",
